@@ -466,3 +466,4 @@ def run(ctx, rep):
     c01_drain.run(ctx, rep, g)
     c01_fold.run(ctx, rep, g)
     c01_fold.run_partial(ctx, rep)
+    c01_fold.run_order(ctx, rep)
